@@ -1,4 +1,4 @@
-# KF-C16-1 (C16, reported, undecided): AsyncGraphMachine / HierarchicalAsyncGraphMachine never style the model's
+# D42 (C16, fixed): AsyncGraphMachine / HierarchicalAsyncGraphMachine never style the model's
 # current state 'active' after a transition.  AsyncTransition._change_state and NestedAsyncTransition._change_state
 # (transitions/extensions/asyncio.py) carry their own copy of the graph code: reset_styling + set_previous_transition,
 # but no graph.set_node_style(model.state, "active") after the state change (TransitionGraphSupport._change_state,
